@@ -98,6 +98,15 @@ def handleVal (op : String) (args : List String) : Option String := do
     let (v, _) ← decodeVal (rest.drop k)
     let E : PEnv := { cls := cls, named := namedEnv }
     pure (fmtParse (Parse.parseColor (α := Float) E v bg) ++ " " ++ (Parse.detectFormat E v).toString)
+  | "parseq", bg :: k :: rest =>
+    -- the same parser at the exact rational carrier (strings only)
+    let bg ← bgOf bg; let k ← k.toNat?
+    let cls ← decodeCls (rest.take k)
+    let (v, _) ← decodeVal (rest.drop k)
+    let E : PEnv := { cls := cls, named := namedEnv }
+    match v with
+    | .str s => pure (fmtParse (@Parse.parseColor Rat ratNum E (.str s) bg))
+    | _ => none
   | "pair", large :: k :: rest =>
     -- ColorPair(text, bg, large): states, is_readable
     let k ← k.toNat?
